@@ -114,6 +114,10 @@ func (P) Exec(line string) string {
 		return execSched(unhx(f[2]), f[3], f[4] == "1")
 	case "vec":
 		return execVec(unhx(f[2]), f[3], f[4] == "1", atoi(f[5]), unhx(f[6]), atoi(f[7]), unhx(f[8]), f[9] == "1")
+	case "rwio":
+		return execRwio(atoi(f[2]), unhx(f[3]), splitList(f[4], ","), splitList(f[5], ","))
+	case "xell":
+		return execXell(f[2], unhx(f[3]), unhx(f[4]))
 	case "conc":
 		return execConc(f[2], strings.Split(f[3], ";"))
 	case "pk":
@@ -155,6 +159,12 @@ func execFsp(key []byte, msgs []string) string {
 		o, err := s.Encrypt(aad, fill(seed, ln))
 		if err != nil {
 			return "err"
+		}
+		// a corrupted copy must be rejected and must leave the receiver usable
+		bad := append([]byte(nil), o...)
+		bad[(seed+ln)%len(bad)] ^= byte(1 + seed%255)
+		if _, err := r.Decrypt(aad, bad); err == nil {
+			return "accepted-corrupted"
 		}
 		pt, err := r.Decrypt(aad, o)
 		if err != nil || string(pt) != string(fill(seed, ln)) {
@@ -607,6 +617,8 @@ func tamper(w []byte, ops string) []byte {
 func execPk(secret []byte, magic string, ini bool, pkts []string, tam string, recvs []string) string {
 	snd, rcv := v2transport.NewPeer(), v2transport.NewPeer()
 	var wire bytes.Buffer
+	var kept [][]byte
+	var keptSum [][32]byte
 	snd.UseReadWriter(&wire)
 	if snd.VerifCreateV2Ciphers(secret, ini, netOf(magic)) != nil || rcv.VerifCreateV2Ciphers(secret, !ini, netOf(magic)) != nil {
 		return "bad-op"
@@ -618,12 +630,24 @@ func execPk(secret []byte, magic string, ini bool, pkts []string, tam string, re
 			if snd.VerifEncRawC19(byte(h), fill(sd, ln), fill(sd+1, aadLen)) != nil {
 				return "bad-op"
 			}
-		} else if _, _, err := snd.V2EncPacket(fill(sd, ln), fill(sd+1, aadLen), h == 1); err != nil {
+		} else if b, _, err := snd.V2EncPacket(fill(sd, ln), fill(sd+1, aadLen), h == 1); err != nil {
 			return "bad-op"
+		} else {
+			kept = append(kept, b)
+			keptSum = append(keptSum, sha256.Sum256(b))
 		}
 	}
 	w := append([]byte(nil), wire.Bytes()...)
 	out := []string{"w=" + digest(w)}
+	// results are values: what V2EncPacket / V2ReceivePacket returned earlier must not change
+	stable := func() bool {
+		for i, b := range kept {
+			if sha256.Sum256(b) != keptSum[i] {
+				return false
+			}
+		}
+		return true
+	}
 	rcv.UseReadWriter(&scriptRW{r: bytes.NewReader(tamper(w, tam))})
 	for _, r := range recvs {
 		f := strings.Split(r, ":")
@@ -633,6 +657,11 @@ func execPk(secret []byte, magic string, ini bool, pkts []string, tam string, re
 			return strings.Join(out, " ")
 		}
 		out = append(out, "rx="+digest(c))
+		kept = append(kept, c)
+		keptSum = append(keptSum, sha256.Sum256(c))
+	}
+	if !stable() {
+		return "returned-value-changed"
 	}
 	ss, rs := snd.VerifSession(), rcv.VerifSession()
 	eq := bytes.Equal(ss.SendLKey, rs.RecvLKey) && bytes.Equal(ss.SendPKey, rs.RecvPKey) &&
@@ -754,4 +783,75 @@ func concPeer(secret []byte, ini bool, warm, n, seed int) string {
 		return "desync"
 	}
 	return fmt.Sprintf("%d:%x,%s,%d", total, h.Sum(nil), hx(ss.SendPKey), ss.SendPCtr)
+}
+
+// ---------------------------------------------------------------- raw I/O, XElligatorSwift
+
+type chunkRW struct {
+	data  []byte
+	chunk int
+	cap   int
+}
+
+func (c *chunkRW) Read(p []byte) (int, error) {
+	if len(c.data) == 0 {
+		return 0, io.EOF
+	}
+	n := len(p)
+	if c.chunk > 0 && n > c.chunk {
+		n = c.chunk
+	}
+	if n > len(c.data) {
+		n = len(c.data)
+	}
+	copy(p, c.data[:n])
+	c.data = c.data[n:]
+	return n, nil
+}
+
+func (c *chunkRW) Write(p []byte) (int, error) {
+	if len(p) > c.cap {
+		return c.cap, nil
+	}
+	return len(p), nil
+}
+
+func execRwio(chunk int, inp []byte, ns, sends []string) string {
+	p := v2transport.NewPeer()
+	rw := &chunkRW{data: inp, chunk: chunk}
+	p.UseReadWriter(rw)
+	var out []string
+	for _, n := range ns {
+		b, k, err := p.Receive(atoi(n))
+		if err != nil {
+			out = append(out, fmt.Sprintf("rx=err:%s:%d", v2transport.VerifErrClassC19(err), k))
+		} else {
+			out = append(out, "rx="+hx(b))
+		}
+	}
+	for _, sd := range sends {
+		f := strings.Split(sd, ":")
+		rw.cap = atoi(f[1])
+		n, err := p.Send(make([]byte, atoi(f[0])))
+		out = append(out, fmt.Sprintf("tx=%d:%s", n, v2transport.VerifErrClassC19(err)))
+	}
+	return strings.Join(out, " ")
+}
+
+func execXell(x string, pre, seed []byte) (out string) {
+	withRand(pre, seed, func() {
+		u, t, err := ellswift.XElligatorSwift(fieldVal(x))
+		if err != nil {
+			out = "err"
+			return
+		}
+		ub, tb := u.Bytes(), t.Bytes()
+		dx, err := ellswift.XSwiftEC(u, t)
+		ds := "none"
+		if err == nil {
+			ds = fvHex(dx)
+		}
+		out = hex.EncodeToString(ub[:]) + hex.EncodeToString(tb[:]) + " " + ds
+	})
+	return
 }
